@@ -1,7 +1,74 @@
 import Mutagen.Driver.Util
+import Mutagen.Model.Identifier
 namespace Mutagen.Driver.C39
+open Mutagen.Driver Mutagen.Model.Identifier
 
-/-- Model-side handler for one line of the C39 correspondence stream. -/
-def handle (_line : String) : String := "unimplemented"
+/-!
+Strings travel as `s:<text>` (printable ASCII without spaces) or
+`u:<cp>.<cp>…` (decimal code points as `range` over the Go string yields them;
+a code point ≥ 128 may carry the suffix `L`/`N` when `unicode.IsLetter` /
+`unicode.IsNumber` holds for it).
+
+Lines:
+* `b62 <hex>` — `encoding.EncodeBase62`; answer: the text (`-` when empty).
+* `new <prefix hex> <random hex>` — `identifier.New` with the random source
+  delivering the given bytes; answer `ok <identifier>`, `error` or `panic`.
+* `valid <string>` — `identifier.IsValid`; `true`/`false`.
+* `trunc <string>` — `identifier.Truncated`; the text or `-`.
+* `name <string>` — `selection.EnsureNameValid`; `ok`/`error`.
+* `re` — sources of the two regular expressions.
+-/
+
+def parseCp (tok : String) : Option (Char × CharClass) :=
+  let cs := tok.toList
+  let (digits, cls) :=
+    match cs.getLast? with
+    | some 'L' => (cs.dropLast, CharClass.letter)
+    | some 'N' => (cs.dropLast, CharClass.number)
+    | _ => (cs, CharClass.other)
+  (String.ofList digits).toNat?.map fun n => (Char.ofNat n, cls)
+
+/-- The string and the classification of its non-ASCII code points. -/
+def parseStr (tok : String) : Option (List Char × (Char → CharClass)) :=
+  match tok.toList with
+  | 's' :: ':' :: rest => some (rest, fun _ => .other)
+  | 'u' :: ':' :: rest =>
+    if rest.isEmpty then some ([], fun _ => .other) else do
+    let cps ← ((String.ofList rest).splitOn ".").mapM parseCp
+    pure (cps.map (·.1), fun c => match cps.find? (·.1 == c) with
+      | some (_, k) => k
+      | none => .other)
+  | _ => none
+
+def showText (cs : List Char) : String := if cs.isEmpty then "-" else String.ofList cs
+
+def handle (line : String) : String :=
+  match fields line with
+  | ["b62", h] =>
+    match decHex h with
+    | some v => showText (encodeBase62 v)
+    | none => "bad-op"
+  | ["new", p, r] =>
+    match decHex p, decHex r with
+    | some p, some r =>
+      match new p r with
+      | .ok id => "ok " ++ String.ofList id
+      | .error => "error"
+      | .panic => "panic"
+    | _, _ => "bad-op"
+  | ["valid", s] =>
+    match parseStr s with
+    | some (cs, _) => toString (isValid cs)
+    | none => "bad-op"
+  | ["trunc", s] =>
+    match parseStr s with
+    | some (cs, _) => showText (truncated cs)
+    | none => "bad-op"
+  | ["name", s] =>
+    match parseStr s with
+    | some (cs, extra) => if ensureNameValid extra cs = .ok then "ok" else "error"
+    | none => "bad-op"
+  | ["re"] => matcherSource ++ " " ++ legacyMatcherSource
+  | _ => "bad-op"
 
 end Mutagen.Driver.C39
